@@ -847,6 +847,14 @@ func (r *Run) deepEqual(x, y Value, depth int) *Term {
 		if !ok || len(ys) != len(x) {
 			return tFalse
 		}
+		if r.canon {
+			// time.Time values (wall, ext, loc): compare as instants when both are virtual-clock times
+			if a, ok1 := isMonoTime(x); ok1 {
+				if b, ok2 := isMonoTime(ys); ok2 {
+					return tEq(a, b)
+				}
+			}
+		}
 		res := tTrue
 		for i := range x {
 			res = tAnd(res, r.deepEqual(x[i], ys[i], depth+1))
@@ -870,7 +878,7 @@ func (r *Run) deepEqual(x, y Value, depth int) *Term {
 		if !ok {
 			return tFalse
 		}
-		if (x.S == nil) != (ys.S == nil) || len(x.S) != len(ys.S) {
+		if ((x.S == nil) != (ys.S == nil) && !r.canon) || len(x.S) != len(ys.S) {
 			return tFalse
 		}
 		res := tTrue
@@ -890,7 +898,17 @@ func (r *Run) deepEqual(x, y Value, depth int) *Term {
 			return tTrue
 		}
 		if (x == nil) != (ym == nil) {
-			return tFalse
+			if !r.canon {
+				return tFalse
+			}
+			n := 0
+			if x != nil {
+				n += len(x.Entries)
+			}
+			if ym != nil {
+				n += len(ym.Entries)
+			}
+			return mkBool(n == 0)
 		}
 		if len(x.Entries) != len(ym.Entries) {
 			return tFalse
